@@ -55,6 +55,8 @@ pub struct Ctx<'a> {
     pub labels: Vec<&'static str>,
     /// number of individual library results compared inside this case
     pub comparisons: u64,
+    /// largest observed |error| / allowed bound per named clause (reported in the evidence)
+    pub ratios: Vec<(&'static str, f64)>,
     findings: &'a Findings,
     prop: &'static str,
     /// strict: known-finding signatures are not tolerated (witness re-check / replay)
@@ -62,12 +64,23 @@ pub struct Ctx<'a> {
 }
 impl<'a> Ctx<'a> {
     pub fn new(tier: Tier, findings: &'a Findings, prop: &'static str, strict: bool) -> Self {
-        Ctx { tier, nontrivial: false, labels: Vec::new(), comparisons: 0, findings, prop, strict }
+        Ctx { tier, nontrivial: false, labels: Vec::new(), comparisons: 0, ratios: Vec::new(), findings, prop, strict }
     }
     #[inline]
     pub fn label(&mut self, l: &'static str) {
         if !self.labels.contains(&l) {
             self.labels.push(l);
+        }
+    }
+    /// record an observed error/bound ratio for the named clause
+    #[inline]
+    pub fn ratio(&mut self, clause: &'static str, r: f64) {
+        if let Some(e) = self.ratios.iter_mut().find(|e| e.0 == clause) {
+            if r > e.1 {
+                e.1 = r;
+            }
+        } else {
+            self.ratios.push((clause, r));
         }
     }
     /// Is `sig` listed as an *open* known finding for this property (and are we
@@ -169,6 +182,7 @@ pub struct Stats {
     pub known: BTreeMap<&'static str, u64>,
     pub labels: BTreeMap<&'static str, u64>,
     pub scopes: BTreeMap<&'static str, u64>,
+    pub ratios: BTreeMap<&'static str, f64>,
     pub samples: Vec<Value>,
     pub largest: Option<(usize, Value)>,
     pub failures: Vec<Failure>,
@@ -205,6 +219,12 @@ impl Stats {
         }
         for (k, v) in o.scopes {
             *self.scopes.entry(k).or_default() += v;
+        }
+        for (k, v) in o.ratios {
+            let e = self.ratios.entry(k).or_insert(0.0);
+            if v > *e {
+                *e = v;
+            }
         }
         for s in o.samples {
             if self.samples.len() < 6 {
@@ -265,6 +285,14 @@ fn record<P: Prop>(p: &P, st: &mut Stats, case: &P::Case, ctx: &Ctx, out: &Outco
     for l in &ctx.labels {
         *st.labels.entry(l).or_default() += 1;
     }
+    if !matches!(out, Outcome::Fail(_)) {
+        for (k, v) in &ctx.ratios {
+            let e = st.ratios.entry(k).or_insert(0.0);
+            if *v > *e {
+                *e = *v;
+            }
+        }
+    }
     if ctx.nontrivial {
         st.nontrivial += 1;
         if st.distinct.len() < DISTINCT_CAP / SHARDS as usize {
@@ -290,7 +318,7 @@ fn run_shard<P: Prop>(p: &P, tier: Tier, seed: u64, shard: u32, cases: u32, find
             cases,
             failure_persistence: None,
             rng_seed: RngSeed::Fixed(splitmix(seed, shard)),
-            max_shrink_iters: 50_000,
+            max_shrink_iters: 4_000,
             max_global_rejects: 1 << 30,
             max_local_rejects: 1 << 20,
             ..Config::default()
@@ -572,6 +600,7 @@ pub fn run_prop<P: Prop>(p: &P, tier: Tier, seed: u64, fuzz_stats: Option<Value>
             "excluded_known_finding": all.known,
             "excluded_known_finding_total": known,
             "deterministic_scopes": all.scopes,
+            "max_observed_error_over_allowed_bound": all.ratios,
             "regression_cases_replayed": regress_n,
             "further_failing_shards_not_listed": suppressed,
             "extra_counters": p.extra_counters(),
